@@ -87,7 +87,12 @@ fn gen_q(rng: &mut Rng, depth: u32, ctes: &mut Vec<String>) -> String {
             _ => "SELECT id AS k, age AS v FROM users".to_string(),
         }
     } else {
-        match rng.below(10) {
+        match rng.below(12) {
+            // a base table (protected or public) as a direct input of a join, on either side, with a sub-query on the other
+            10 => { let b = gen_q(rng, depth - 1, ctes); let (t, kcol, vcol) = *rng.pick(&[("users", "id", "income"), ("orders", "user_id", "amount"), ("products", "pid", "price")]);
+                    if rng.chance(1, 2) { format!("SELECT {t}.{kcol} AS k, {t}.{vcol} - {b}.v AS v FROM {t} JOIN {b} ON {t}.{kcol} = {b}.k") } else { format!("SELECT {t}.{kcol} AS k, {t}.{vcol} + {b}.v AS v FROM {b} JOIN {t} ON {b}.k = {t}.{kcol}") } }
+            11 => { let b = gen_q(rng, depth - 1, ctes); let (t, kcol, vcol) = *rng.pick(&[("users", "id", "income"), ("orders", "user_id", "amount")]);
+                    format!("SELECT {t}.{kcol} AS k, {t}.{vcol} * {b}.v AS v FROM {t} CROSS JOIN {b}") }
             0 | 1 => { let w = if rng.chance(1, 2) { " WHERE v > 3" } else { "" }; let c = gen_q(rng, depth - 1, ctes); format!("SELECT k, v + 1 AS v FROM {c}{w}") }
             2 | 3 => { let c = gen_q(rng, depth - 1, ctes); format!("SELECT k, sum(v) AS v FROM {c} GROUP BY k") }
             4 => { let c = gen_q(rng, depth - 1, ctes); format!("SELECT count(v) AS k, avg(v) AS v FROM {c}") }
